@@ -44,6 +44,18 @@ fn get_env_url(name: &str) -> Option<Url> {
     }
 }
 
+/// Whether `host` is `pattern` itself or a subdomain of it. An empty pattern matches nothing.
+fn host_matches(host: &str, pattern: &str) -> bool {
+    let pattern = pattern.to_lowercase();
+    if pattern.is_empty() {
+        return false;
+    }
+    match host.strip_suffix(pattern.as_str()) {
+        Some(prefix) => prefix.is_empty() || prefix.ends_with('.'),
+        None => false,
+    }
+}
+
 /// Contains proxy settings and utilities to find which proxy to use for a given URL.
 #[derive(Clone, Debug)]
 pub struct ProxySettings {
@@ -104,11 +116,7 @@ impl ProxySettings {
         }
 
         if let Some(host) = url.host_str() {
-            if !self
-                .no_proxy_hosts
-                .iter()
-                .any(|x| host.ends_with(x.to_lowercase().as_str()))
-            {
+            if !self.no_proxy_hosts.iter().any(|x| host_matches(host, x)) {
                 return match url.scheme() {
                     "http" => self.http_proxy.as_ref(),
                     "https" => self.https_proxy.as_ref(),
